@@ -162,6 +162,15 @@ func c09Word(cfg muxCfg, word string) []wunit {
 				if u.RA && u.Params == 0 && (word != "params-nonra" || i == 0) {
 					u.Params = 1
 				}
+				if t.Kind == "h265b" {
+					// decode times advance regularly; the presentation time handed to WriteH265 is ahead of them by what the
+					// slice kind implies (IDR, then the three kinds of TRAIL slices in turn)
+					u.POC = 0
+					if !u.RA {
+						u.POC = 1 + int(i%3)
+					}
+					u.DTS = ms*clock/1000 + h265bLag[u.POC]
+				}
 				if isH264B(t.Kind) {
 					// decode order I M b M b ...: an "M" frame is displayed after the "b" frame written right after it
 					d := step * clock / 1000
@@ -257,6 +266,9 @@ func c09Harness(sc c09Scen) vsched.Harness {
 							}
 							dts = d
 						}
+						if sc.Cfg.Tracks[u.Track].Kind == "h265b" {
+							dts = u.DTS - h265bLag[u.POC]
+						}
 						st.written[u.Track] = append(st.written[u.Track], c09Written{u: u, dts: dts, pts: u.DTS, data: data})
 					} else {
 						for k := range data {
@@ -336,6 +348,9 @@ func c09Harness(sc c09Scen) vsched.Harness {
 			add := func(sig, format string, a ...any) {
 				viols = append(viols, vsched.Viol{Sig: sig, Msg: fmt.Sprintf(format, a...)})
 			}
+			if tr.Livelock != "" {
+				add("livelock", "%s", tr.Livelock)
+			}
 			for _, p := range tr.Panics {
 				add("panic:"+firstLibFrame(p), "%s", p)
 			}
@@ -407,6 +422,9 @@ func c09Harness(sc c09Scen) vsched.Harness {
 				}
 				if isH264(wantKind) {
 					wantKind = "h264"
+				}
+				if isH265(wantKind) {
+					wantKind = "h265"
 				}
 				if kind != wantKind {
 					add("track-codec", "track %d reported as %s, the muxer track is %s", i, kind, t.Kind)
@@ -597,7 +615,7 @@ func c09Harness(sc c09Scen) vsched.Harness {
 						}
 						deltas := []int64{0}
 						lt := cfg.Tracks[leadTi]
-						if isH264B(lt.Kind) {
+						if isH264B(lt.Kind) || lt.Kind == "h265b" {
 							// all streams are cut at the same instant and carry the leading stream's PROGRAM-DATE-TIME: "the first unit
 							// of the unit's segment" is the leading-track key frame that opened the aligned segment (the reading C10
 							// spells out: "offset from that segment's first leading-track unit")
@@ -687,6 +705,8 @@ func c09Scens(tier string) []c09Scen {
 		mcfg("fmp4", false, 3, "h264", "aacsbr"),    // HE-AAC: the track's clock and timescale are the core rate
 		mcfg("mpegts", false, 3, "h264bk", "aac44"), // reordered H264 on a millisecond clock (MPEG-TS rescales)
 		mcfg("mpegts", false, 3, "h264k"),
+		mcfg("fmp4", false, 3, "h265b", "aac44"), // reordered H265: decode and presentation times differ
+		mcfg("ll", false, 7, "h265b"),
 	}
 	for i := range cfgs {
 		if cfgs[i].Variant == "ll" {
@@ -707,7 +727,7 @@ func c09Scens(tier string) []c09Scen {
 				if !hasVideo && word != "regular" {
 					continue
 				}
-				if isH264B(cfg.Tracks[cfg.leading()].Kind) && word == "params" {
+				if (isH264B(cfg.Tracks[cfg.leading()].Kind) || cfg.Tracks[cfg.leading()].Kind == "h265b") && word == "params" {
 					continue
 				}
 				segLen := 1000
